@@ -426,8 +426,8 @@ def displayText (p : Nat → Bool) (e : Expr) : List Nat := text p (display p e)
 
   `kindPrec k` is the level in the `group_if!` of the arm that renders kind `k` (`none`: the arm has
   no `group_if!`), `slotLevel s` the `level` argument the parent passes for the child in slot `s`.
-  `PV.C11.Lemmas` proves, for every constructor, that `unparse` is built from exactly these two
-  tables (`unparse_*_shape`). -/
+  `PV.C11.unparse_shape` and `PV.C11.unparse_slot_levels` (Thm.lean) prove, for every expression and
+  every constructor, that `unparse` is built from exactly these two tables. -/
 
 def kindPrec : Kind → Option Nat
   | .tuple => some Prec.TUPLE
